@@ -45,6 +45,10 @@ type regCtl struct {
 // tss is the account currently configured as TSS account on chain ci.
 func (c *regCtl) tss(ci int) kit.Account { return c.tssCur[ci] }
 
+// tssTwin is a second TSS-secured counterparty whose name differs from bridge.TSSName only in letter case (chain names are
+// case-sensitive: a registration for one confers nothing for the other). Its TSS account is the world's TSS account throughout.
+var tssTwin = strings.ToUpper(bridge.TSSName)
+
 func (c *regCtl) names(ci int) []string {
 	var ns []string
 	for j, o := range c.m.W.Chains {
@@ -52,7 +56,7 @@ func (c *regCtl) names(ci int) []string {
 			ns = append(ns, o.ChainID)
 		}
 	}
-	return append(ns, bridge.TSSName)
+	return append(ns, bridge.TSSName, tssTwin)
 }
 
 func (c *regCtl) register(t *rapid.T, ci int, acct kit.Account, label string) {
@@ -221,12 +225,19 @@ func (c *regCtl) tssRecv(t *rapid.T) {
 	c.tssSeq++
 	td := packettypes.TransferData{Token: bridge.TSSOriToken, Amount: common.LeftPadBytes(big.NewInt(3).Bytes(), 32), Receiver: strings.ToLower(w.Users[0].Addr.String())}
 	tdBz, _ := td.ABIPack()
-	pk := packettypes.Packet{SrcChain: bridge.TSSName, DstChain: ch.ChainID, Sequence: c.tssSeq, Sender: "0xs", TransferData: tdBz, CallData: []byte{}}
+	from, tssAcct := bridge.TSSName, c.tss(ci)
+	if rapid.IntRange(0, 2).Draw(t, "fromTwin") == 0 {
+		from, tssAcct = tssTwin, w.TSS
+	}
+	pk := packettypes.Packet{SrcChain: from, DstChain: ch.ChainID, Sequence: c.tssSeq, Sender: "0xs", TransferData: tdBz, CallData: []byte{}}
 	bz, _ := pk.ABIPack()
-	want, reg := c.authorised(ci, s, bridge.TSSName)
-	auth := reg && s.Acc.Equals(c.tss(ci).Acc)
-	cls := c.class(ci, s, bridge.TSSName)
-	if s.Acc.Equals(c.tss(ci).Acc) {
+	want, reg := c.authorised(ci, s, from)
+	auth := reg && s.Acc.Equals(tssAcct.Acc)
+	cls := c.class(ci, s, from)
+	if from == tssTwin {
+		cls = "twin-name-" + cls
+	}
+	if s.Acc.Equals(tssAcct.Acc) {
 		cls = "tss-account-" + cls
 	} else if s.Acc.Equals(w.TSS.Acc) {
 		cls = "former-tss-account-" + cls
@@ -382,8 +393,9 @@ func runRegistry(t *rapid.T, r *rec.Recorder) {
 	m := bridge.NewMachine(t, r)
 	w := m.W
 	c := &regCtl{m: m, cases: map[string]bool{}, pool: []kit.Account{w.Rels[0], w.Rels[1], w.TSS, w.Outsider}}
-	for range w.Chains {
+	for _, ch := range w.Chains {
 		c.tssCur = append(c.tssCur, w.TSS)
+		ch.CreateTSSClient(tssTwin, w.TSS.Acc)
 	}
 	for ci := range w.Chains {
 		c.reg = append(c.reg, map[string]map[string]string{})
